@@ -73,3 +73,29 @@ claim("C14", "post-conditions of the as-is coercer providers (same type, destina
       note=NOTE + " C14-specific: strip_tags / is_generic / is_parametrized / is_subclass_soft are abstracted as deterministic "
                   "total functions; `==` of normalised types is the relation py_eq; the structural coercers (Optional, iterable, "
                   "dict), the model coercer and the unlinked-field policy chain are not yet under contract.")
+
+GENPROG_NOTE = (" GENPROG: every program of a printed family (logical model x name_mapping configuration x debug trail x coercion; "
+                "dataclass, plain __init__, attrs with aliases, attrs with a hand-written __init__, TypedDict for dumping) is generated by "
+                "the REAL generator, captured through CodeGenAccumulator, parsed and executed symbolically on a symbolic input "
+                "tree; the contract comes from genprog/layout_spec.py, written from the documentation without reading the name-layout "
+                "code. Bounded over programs (count in the evidence), unbounded over inputs. Field loaders/dumpers are arbitrary "
+                "callables under LD/DUMP; the model constructor is an uninterpreted total function whose call log is the observable.")
+
+claim("C03", "every generated loader/dumper of the program family is proved against the contract instantiated from the independent "
+             "layout specification: each field is read from / written to exactly its documented path (map > style/trim, skip > only, "
+             "`...` in maps, nested paths, list indices), two-sided acceptance bounds, unknown keys ignored / rejected / delivered "
+             "exactly (loop invariant `extras_prefix`), dumper tree shape, omit_default for as-is dumpers",
+      note=NOTE + GENPROG_NOTE + " C03-specific: name_mapping provider chaining/overlay merging and extra_out/saturators are outside the "
+                                 "family; omit_default compares the DUMPED value with the default — recorded known finding "
+                                 "(known_findings.json), the weaker as-is clause is proved.",
+      ref="DESIGN.md §5, Appendix D")
+
+claim("C08", "generated loaders: the model constructor is called exactly once, every parameter receives the loaded value of its field or "
+             "— when the field is absent — exactly the model's own default (same object, or equal and of the same type for literal-safe "
+             "values; a fresh factory result), parameters are passed consistently with their kind and under their real names "
+             "(attrs aliases), after skipped parameters too; `get_literal_expr` / `get_literal_from_factory` proved to render only "
+             "text that evaluates back to an equal object of exactly the same type",
+      note=NOTE + GENPROG_NOTE + " C08-specific: get_literal_expr is proved over all leaf objects of D and a printed family of "
+                                 "container shapes (evaluation of rendered text is judged by CPython's eval per shape: bounded over "
+                                 "shapes); shape introspection of pydantic/sqlalchemy/NamedTuple/TypedDict models is outside the claim.",
+      ref="DESIGN.md §5, Appendix D")
